@@ -217,6 +217,21 @@ func init() {
 			"encoding/json.Number.Int64/Float64/String are assumed total functions returning values of the stated Go types",
 		},
 	}
+	// the partial claim on Visitor.VisitSchema (see its contract): only the at-call obligations
+	for _, id := range []string{"C05", "C06", "C15"} {
+		ps := propSpecs[id]
+		prev := ps.Opts
+		ps.Opts = func(e *Engine, key string) VerifyOpts {
+			var o VerifyOpts
+			if prev != nil {
+				o = prev(e, key)
+			}
+			if key == "compiler.(*Visitor).VisitSchema" {
+				o.OnlyNames = []string{"call:"}
+			}
+			return o
+		}
+	}
 	propSpecs["C03"] = &PropSpec{
 		ID:       "C03",
 		Patterns: []string{"./..."},
